@@ -25,7 +25,9 @@ READY = True
 
 def check(v, tier, opts):
     v.functions.update(["ts_vmin", "ts_vmax", "ts_vargmin", "ts_vargmax", "ts_vrank", "ts_vminmaxnorm (tea-rolling/src/cmp.rs, norm.rs)"])
-    v.bounds.append("Engine K: N in 1..=4 quick, ..=6 thorough; w in 1..=N+2; min_periods explicit 0..=w, omitted for N >= w")
+    v.bounds.append("Engine K: N in 1..=4 quick, ..=6 thorough; w in 1..=N+2; min_periods explicit 0..=w, omitted for N >= w; "
+                    "min-max normalisation over unconstrained Option<i32> keys: N <= 2 quick, N <= 3 thorough (N = 4, 5 gave no SAT answer in 2400 s; "
+                    "small-alphabet keys reach N = 6)")
     v.bounds.append("Engine M (ts_vzscore): L in {1,4,5} quick, 1..=6 thorough; w<=5; all null masks for L<=4; |x|<=100")
     v.outside.append("lengths above the bound; rounding error of the z-score; minmaxnorm on f64 inputs (float subtraction inside the kernel)")
     kani_engine.decide(v, "C03", tier, opts)
